@@ -474,12 +474,22 @@ class EdgeQLSourceGenerator(codegen.SourceGenerator):
         self.write("'")
 
     def visit_UnaryOp(self, node: qlast.UnaryOp) -> None:
+        # A unary operator binds less tightly than some binary ones
+        # (NOT vs. +, unary minus vs. ^): as an operand it must be
+        # parenthesized or it would swallow its sibling when re-parsed.
+        parent = node._parent  # type: ignore
+        parenthesise = isinstance(
+            parent, (qlast.BinOp, qlast.IsOp, qlast.IfElse))
+        if parenthesise:
+            self.write('(')
         op = str(node.op).upper()
         self.write(op)
         if op.isalnum():
             self.write(' (')
         self.visit(node.operand)
         if op.isalnum():
+            self.write(')')
+        if parenthesise:
             self.write(')')
 
     def visit_BinOp(self, node: qlast.BinOp) -> None:
